@@ -36,7 +36,7 @@ EXCEPTIONS = {
     ("mpq_QScreate_prob", "strcpy", "p->qslp->probname"): "allocated with strlen(p->name) + 1 just above",
     ("ILLutil_str", "strcpy", "cpy"): "cpy is allocated with strlen(str) + 1 in the same function",
     ("ILLsymboltab_uname", "sprintf", "prefix"): "try_prefix[0] is a short literal prefix at every call site (\"c\", \"x\", \"\", \"obj\"...); destination is char[ILL_namebufsize]",
-    ("ILLsymboltab_uname", "sprintf", "new"): "new_pre is cut to ILL_namebufsize - numlen - 1 bytes on the line above; \"_%d\" adds at most numlen + 1",
+    ("ILLsymboltab_uname", "sprintf", "new"): "new_pre is cut to ILL_namebufsize - numlen - 1 bytes on the line above, numlen >= 2 being an integer digit count of nvars (R-FLOATIDX makes sure it is not computed in floating point); \"_%d\" with i <= nvars adds at most numlen characters",
     ("ILLsymboltab_uname", "strcpy", "name"): "name is declared char name[ILL_namebufsize] (array parameter); new is a local of the same size",
     ("ILLsymboltab_unique_name", "sprintf", "uname2"): "uname2 is declared char uname2[ILL_namebufsize]; \"%d\" needs at most 12 bytes",
     ("fix_names", "strcpy", "buf"): "names are shorter than ILL_namebufsize at every entry: reader tokens live in ILL_namebufsize line buffers and ILLlib_findName truncates API names with snprintf(buf, ILL_namebufsize, ...)",
